@@ -12,6 +12,10 @@ def replay(ctx, path):
         print("replay file names a broken obligation/correspondence (%s); re-running the whole check" % obj["broken"])
         CHECKS[ctx.prop](ctx)
         return ctx.finish()
+    if obj.get("engine") == "conc":     # C06/C07 concurrent part: overlay build + schedule replay
+        import importlib
+        mod = importlib.import_module(__package__ + ".checks." + ctx.prop.lower())
+        return getattr(mod, "replay_" + ctx.prop)(ctx, obj)
     st = obj["stream"]
     mm = ctx.stream(st["name"] + "-replay", st["harness"], st["driver"], tags=st.get("tags", ""), replay_lines=[obj["case"]])
     if mm is None:
